@@ -25,7 +25,9 @@ def build(case):
                 nodes[p].children.append(nodes[c])
                 nodes[c].parents.append(nodes[p])
     a = Attacker(name='a')
-    g.add_attacker(a)
+    # every node is one of a's entry points (entry points say where an attacker may start, not what it has reached:
+    # they must not influence traversability or either way of computing the surface)
+    g.add_attacker(a, entry_points=[nodes[i].id for i in range(1, n + 1)])
     b = Attacker(name='b')          # a second attacker that has compromised everything must not matter
     g.add_attacker(b)
     for i in range(1, n + 1):
